@@ -172,6 +172,12 @@ theorem note_fields (cfg : Cfg) (s : State) (x : Option Src) :
   · split <;> simp [say]
   · simp
 
+theorem note_tgt (cfg : Cfg) (s : State) (x : Option Src) : (note cfg s x).tgt = s.tgt := by
+  unfold note
+  split
+  · split <;> simp [say]
+  · simp
+
 theorem note_ext (cfg : Cfg) (s : State) (x : Option Src) : Ext s (note cfg s x) :=
   Ext.of_same (note_fields cfg s x).1 (note_fields cfg s x).2.1 (note_fields cfg s x).2.2.1
 
@@ -694,5 +700,81 @@ theorem fieldSet_fan_core {cfg : Cfg} (hfix : cfg.fieldFan = true) {s s' : State
       rw [key o]
       simp
 
+/-! ### setter-backed fields (`src.target = x`, `src.targetname = n`) -/
+
+theorem applySetter_keep (f : Setter) {s s' : State} {o : ObjId} (h : applySetter f s o = .ok s') : Keep s s' := by
+  cases f with
+  | target x => cases h; exact Keep.of_same rfl rfl rfl
+  | name n => cases h; exact setTargetName_keep _ _ _
+
+/-- the loop of a `.target` assignment: every live member of the walked copy gets the one value `x` -/
+theorem fanLoop_setTgt (x : Nat) (rs : List WeakRef) {s s' : State}
+    (h : fanLoop (applySetter (.target x)) rs s = .ok s')
+    (ha : ∀ o, some o ∈ rs → s.alive o = true) :
+    ∀ o, s'.tgt o = if some o ∈ rs then x else s.tgt o := by
+  induction rs generalizing s with
+  | nil => cases h; intro o; simp
+  | cons r t ih =>
+    cases r with
+    | none =>
+      intro o
+      rw [ih (s := s) h (fun p hp => ha p (by simp [hp])) o]
+      simp
+    | some p =>
+      simp only [fanLoop, ha p (by simp), if_true, Res.bind, applySetter] at h
+      intro o
+      rw [ih h (fun q hq => ha q (by simp [hq])) o]
+      by_cases e : o = p
+      · subst e; simp
+      · have : ¬ (some o = some p) := fun h' => e (Option.some.inj h')
+        simp [upd_other _ _ e, e]
+
+/-- `$n.<setter field> = v` with the repair: the setter is processed on every bearer of `n` (as of the
+    start of the statement), each exactly once, in naming order -/
+theorem fieldSetter_visits_core {cfg : Cfg} (hfix : cfg.fieldFan = true) {s s' : State} (g : Good s)
+    {n : Name} {f : Setter} (hok : fieldSetter cfg s (.name n) f = .ok s') :
+    ∃ seg, s'.log = s.log ++ seg ∧ visits seg = bearers s.log n := by
+  rw [fieldSetter_eq_fanOut hfix] at hok
+  exact fanOut_all_core g (fun s o s' e => (applySetter_keep f e).keepBut o) hok
+
+/-- `$n.target = x` with the repair: exactly the bearers of `n` end with target `x` (the SAME value for
+    the first member and for every later one), nobody else's target changes -/
+theorem fieldSetter_target_core {cfg : Cfg} (hfix : cfg.fieldFan = true) {s s' : State} (g : Good s)
+    {n : Name} {x : Nat} (hok : fieldSetter cfg s (.name n) (.target x) = .ok s') :
+    ∀ o, s'.tgt o = if o ∈ bearers s.log n then x else s.tgt o := by
+  have i := g.inv
+  rcases evalTarget_spec cfg i n with ⟨hb, he⟩ | ⟨o, hb, he⟩ | ⟨h2, hcase⟩
+  · simp only [fieldSetter, evalSrc, he] at hok
+    cases hok
+    exact fun o => by simp [hb, say]
+  · simp only [fieldSetter, evalSrc, he, applySetter] at hok
+    cases hok
+    intro p
+    simp only [hb, List.mem_singleton, upd]
+  · have hgroup : receivers s (evalTarget cfg s n) = .group ((bearers s.log n).map some) ∧
+        (∀ r, evalTarget cfg s n ≠ .obj r) ∧ evalTarget cfg s n ≠ .nil := by
+      rcases hcase with ⟨_, he⟩ | ⟨_, l, _, hl, he⟩
+      · rw [he]; simp only [receivers, List.length_map]; rw [if_pos (by omega)]; simp
+      · rw [he]; simp only [receivers, hl, List.length_map]; rw [if_pos (by omega)]; simp
+    obtain ⟨hg, hno, hnn⟩ := hgroup
+    have hfs : fieldSetter cfg s (.name n) (.target x) =
+        fanLoop (applySetter (.target x)) ((bearers s.log n).map some) s := by
+      unfold fieldSetter
+      simp only [evalSrc]
+      split
+      · rename_i e; exact absurd e hnn
+      · rename_i e; exact absurd e (hno _)
+      · rename_i e; exact absurd e (hno _)
+      · simp only [hfix, if_true, hg]
+    simp only [hfs] at hok
+    have halive : ∀ o, some o ∈ (bearers s.log n).map some → s.alive o = true := by
+      intro o ho
+      obtain ⟨y, hy, e⟩ := List.mem_map.mp ho
+      cases e
+      exact (i.bearer n o hy).1
+    have key := fanLoop_setTgt x ((bearers s.log n).map some) hok halive
+    intro o
+    rw [key o]
+    simp
 
 end Morfuse.Target
